@@ -211,6 +211,21 @@ def run_straight(f, env, calls, stop, maxsteps=400, returns=False, start=None, s
         succs = b.succs
         if b.noreturn:
             return None
+        if b.term and b.term.get("kind") == "SwitchStmt" and b.term.get("cond") is not None:
+            v = ev(b.term["cond"], env, calls)
+            tgt = dflt = None
+            for s_ in succs:
+                if s_ is None:
+                    continue
+                lab = f.blocks[s_].label or {}
+                if lab.get("k") == "case" and (lab.get("v") == v or ("v2" in lab and lab["v"] <= v <= lab["v2"])):
+                    tgt = s_
+                elif lab.get("k") == "default":
+                    dflt = s_
+            if tgt is None:
+                tgt = dflt if dflt is not None else succs[-1]
+            bid = tgt
+            continue
         if b.term and b.term.get("cond") is not None and len(succs) == 2:
             try:
                 c = ev(b.term["cond"], env, calls)
